@@ -55,6 +55,7 @@ class Facts:
             self.renamed_fns = {}
         if not hasattr(self, "renamed_variants"):
             self.renamed_variants = {}
+        self.transparent = self._transparent_fields()
         self.removed_helpers = {}   # helpers inlined into all their callers by normalise(): not bodies of their own any more
 
     def _canonical_paths(self, lines):
@@ -103,6 +104,42 @@ class Facts:
                 if rx.pattern and b_ is not None:
                     line = rx.sub(b_, line)
             out.append(line)
+        return out
+
+    def _transparent_fields(self):
+        """Fields of the kind `X.g: Y` where X is a type of the baseline and Y a local struct that the baseline did not have: state that was
+        regrouped into a helper struct (`NutsChain { core: ChainCore, record: DrawRecord, .. }`). In value trees and source-level trees such a
+        field is transparent - `self.core.state` is read as `self.state` - so that rules stated over the fields of X still find them. Only
+        when no field name of Y collides with a field of X (or of another regrouped struct of X)."""
+        here = os.path.dirname(os.path.abspath(__file__))
+        bp = os.path.join(here, "baseline_fields.json")
+        if not os.path.exists(bp):
+            return set()
+        base = json.load(open(bp))
+        out = set()
+        for xp, x in self.adts.items():
+            if xp not in base or x.get("kind") != "struct" or not x.get("variants"):
+                continue
+            xf = x["variants"][0]["fields"]
+            names = [f["name"] for f in xf]
+            cand = []
+            for f in xf:
+                y = f.get("adt")
+                if not y or y in base or y not in self.adts or y == xp:
+                    continue
+                ya = self.adts[y]
+                if ya.get("kind") != "struct" or not ya.get("variants"):
+                    continue
+                ty = f["ty"].strip()
+                if ty.startswith(("&", "std::", "alloc::", "core::")):
+                    continue          # only a plain by-value sub-struct, not Vec<Y>, Option<Y>, Arc<Y>
+                cand.append((f["name"], y, [g["name"] for g in ya["variants"][0]["fields"]]))
+            seen = list(names)
+            for (g, y, yf) in cand:
+                if any(n in seen for n in yf):
+                    continue
+                seen += yf
+                out.add((xp, g))
         return out
 
     def _canonical_items(self, lines):
@@ -940,6 +977,8 @@ class Body:
                     # field of a struct / variant built right here
                     base = base[2][base[3].index(e["n"])]
                     continue
+                if e.get("n") is not None and (e.get("of"), e["n"]) in self.facts.transparent:
+                    continue          # state regrouped into a helper struct: `self.core.state` reads as `self.state`
                 base = ("field", base, e["n"] if e["n"] is not None else str(e["f"]))
             elif isinstance(e, dict) and "d" in e:
                 # `(x as V)` where x is built in several places (an enum returned by a helper with one aggregate per variant): only the
